@@ -13,6 +13,7 @@ import (
 	"sync"
 	"time"
 
+	"github.com/enfein/mieru/v3/pkg/appctl/appctlpb"
 	"github.com/enfein/mieru/v3/pkg/cipher"
 	"github.com/enfein/mieru/v3/pkg/common"
 )
@@ -72,6 +73,7 @@ type verifSink struct {
 	mu    sync.Mutex
 	count int
 	bytes int
+	last  []byte
 }
 
 func (k *verifSink) ReadFrom(p []byte) (int, net.Addr, error) { select {} }
@@ -79,6 +81,7 @@ func (k *verifSink) WriteTo(p []byte, addr net.Addr) (int, error) {
 	k.mu.Lock()
 	k.count++
 	k.bytes += len(p)
+	k.last = append(k.last[:0], p...)
 	k.mu.Unlock()
 	return len(p), nil
 }
@@ -110,16 +113,23 @@ type VerifSeg struct {
 }
 
 func VerifNewUDPBench(mtu int) (*VerifUDPBench, error) {
+	return VerifNewUDPBenchWithPattern(mtu, nil)
+}
+
+// VerifBenchPassword is the (hashed) password the bench underlay derives its key from.
+const VerifBenchPassword = "verif-bench-password"
+
+func VerifNewUDPBenchWithPattern(mtu int, pattern *appctlpb.TrafficPattern) (*VerifUDPBench, error) {
 	sink := &verifSink{}
-	block, err := cipher.BlockCipherFromPassword([]byte("verif-bench-password"), true)
+	block, err := cipher.BlockCipherFromPassword([]byte(VerifBenchPassword), true)
 	if err != nil {
 		return nil, err
 	}
-	u, err := NewPacketUnderlay(context.Background(), verifSinkDialer{sink}, nil, "udp", "10.9.0.1:8964", mtu, block, nil)
+	u, err := NewPacketUnderlay(context.Background(), verifSinkDialer{sink}, nil, "udp", "10.9.0.1:8964", mtu, block, pattern)
 	if err != nil {
 		return nil, err
 	}
-	s := NewSession(7, true, mtu, nil, nil)
+	s := NewSession(7, true, mtu, nil, pattern)
 	s.transportProtocol = common.PacketTransport
 	s.conn = u
 	s.remoteAddr = u.serverAddr
@@ -220,4 +230,99 @@ func (b *VerifUDPBench) SendBuf() []VerifSeg {
 		return true
 	})
 	return out
+}
+
+// EmitSession runs the real PacketUnderlay.writeOneSegment on a session segment (open / close,
+// request / response) with the given payload and returns the datagram it wrote.
+func (b *VerifUDPBench) EmitSession(protocol uint8, seq uint32, status uint8, payload []byte) ([]byte, error) {
+	seg := &segment{
+		metadata: &sessionStruct{
+			baseStruct: baseStruct{protocol: protocol},
+			sessionID:  b.S.id, seq: seq, statusCode: status, payloadLen: uint16(len(payload)),
+		},
+		payload:   append([]byte(nil), payload...),
+		transport: common.PacketTransport,
+	}
+	return b.emit(seg)
+}
+
+// EmitData runs the real writeOneSegment on a data segment built the way writeChunk builds it
+// (mode 0 = low entropy off), or on a pure ack when ack is true.
+func (b *VerifUDPBench) EmitData(seq, unAck uint32, fragment uint8, payload []byte, mode int, rotation int, ack bool) ([]byte, error) {
+	protocol := dataClientToServer
+	if ack {
+		protocol = ackClientToServer
+	} else if mode != 0 {
+		protocol = dataClientToServerLowEntropy
+	}
+	das := &dataAckStruct{
+		baseStruct: baseStruct{protocol: uint8(protocol)},
+		sessionID:  b.S.id, seq: seq, unAckSeq: unAck, windowSize: uint16(b.S.receiveWindowSize()), fragment: fragment,
+		payloadLen: uint16(len(payload)),
+	}
+	if mode != 0 && !ack {
+		pl, err := lowEntropyEncodedPayloadLen(len(payload), appctlpb.LowEntropyMode(mode))
+		if err != nil {
+			return nil, err
+		}
+		das.payloadLen = pl
+		das.lowEntropyMode = uint8(mode)
+		das.extractedPayloadLen = uint16(len(payload))
+		das.lowEntropyMaskRotation = uint8(rotation)
+	}
+	seg := &segment{metadata: das, payload: append([]byte(nil), payload...), transport: common.PacketTransport}
+	return b.emit(seg)
+}
+
+func (b *VerifUDPBench) emit(seg *segment) ([]byte, error) {
+	before := b.Datagrams()
+	if err := b.U.writeOneSegment(seg, b.U.serverAddr); err != nil {
+		return nil, err
+	}
+	b.sink.mu.Lock()
+	defer b.sink.mu.Unlock()
+	if b.sink.count != before+1 {
+		return nil, fmt.Errorf("writeOneSegment wrote %d datagrams", b.sink.count-before)
+	}
+	return append([]byte(nil), b.sink.last...), nil
+}
+
+// WriteAndDrain runs the real Session.Write while the caller's goroutine plays the output loop by
+// draining sendQueue, and returns (type, fragment number, payload length) of every segment queued.
+func (b *VerifUDPBench) WriteAndDrain(data []byte) ([][3]int, error) {
+	done := make(chan error, 1)
+	go func() {
+		_, err := b.S.Write(data)
+		done <- err
+	}()
+	var out [][3]int
+	for {
+		select {
+		case err := <-done:
+			for {
+				seg, ok := b.S.sendQueue.DeleteMin()
+				if !ok {
+					return out, err
+				}
+				out = append(out, [3]int{int(seg.Protocol()), int(seg.Fragment()), len(seg.payload)})
+			}
+		default:
+		}
+		if seg, ok := b.S.sendQueue.DeleteMin(); ok {
+			out = append(out, [3]int{int(seg.Protocol()), int(seg.Fragment()), len(seg.payload)})
+		} else {
+			time.Sleep(20 * time.Microsecond)
+		}
+	}
+}
+
+// VerifNewUDPBenchAttached is a bench whose client session is still in the attached state, so that
+// its first Write sends the open session request (with or without a piggybacked payload).
+func VerifNewUDPBenchAttached(mtu int, pattern *appctlpb.TrafficPattern) (*VerifUDPBench, error) {
+	b, err := VerifNewUDPBenchWithPattern(mtu, pattern)
+	if err != nil {
+		return nil, err
+	}
+	b.S.state.Store(int32(sessionAttached))
+	return b, nil
 }
